@@ -1,0 +1,113 @@
+//go:build verif
+// +build verif
+
+package linker
+
+// Observation hook for the /verif correspondence harness (build tag "verif" only): reports the part graph
+// and the liveness computed by treeShakingAndCodeSplitting to an observer installed by the harness.
+
+import (
+	"sync"
+
+	"github.com/evanw/esbuild/internal/ast"
+	"github.com/evanw/esbuild/internal/graph"
+	"github.com/evanw/esbuild/internal/runtime"
+)
+
+type VerifShakeImport struct {
+	Target                int  // source index, -1 = external
+	SideEffects           bool // the target file has side effects (SideEffects.Kind == HasSideEffects)
+	ExternalNoSideEffects bool
+}
+
+type VerifShakePart struct {
+	CanBeRemovedIfUnused bool
+	ForceTreeShaking     bool
+	IsLive               bool
+	Deps                 [][2]int           // (source index, part index)
+	StmtImports          []VerifShakeImport // statement-level import records of this part
+}
+
+type VerifShakeFile struct {
+	SourceIndex    int
+	Path           string
+	IsJS           bool
+	IsLive         bool
+	IsEntryPoint   bool
+	CSSSourceIndex int   // -1 if none
+	CSSImports     []int // for CSS files: imported source indices
+	Parts          []VerifShakePart
+}
+
+type VerifShakeDump struct {
+	TreeShaking          bool
+	IgnoreDCEAnnotations bool
+	EntryPoints          []int
+	Files                []VerifShakeFile
+}
+
+var verifShakeMutex sync.Mutex
+var verifShakeObserver func(VerifShakeDump)
+
+// VerifSetTreeShakingObserver installs (or with nil removes) the observer.
+func VerifSetTreeShakingObserver(f func(VerifShakeDump)) {
+	verifShakeMutex.Lock()
+	verifShakeObserver = f
+	verifShakeMutex.Unlock()
+}
+
+func verifObserveTreeShaking(c *linkerContext) {
+	verifShakeMutex.Lock()
+	obs := verifShakeObserver
+	verifShakeMutex.Unlock()
+	if obs == nil {
+		return
+	}
+	d := VerifShakeDump{TreeShaking: c.options.TreeShaking, IgnoreDCEAnnotations: c.options.IgnoreDCEAnnotations}
+	for _, e := range c.graph.EntryPoints() {
+		d.EntryPoints = append(d.EntryPoints, int(e.SourceIndex))
+	}
+	for _, sourceIndex := range c.graph.ReachableFiles {
+		if sourceIndex == runtime.SourceIndex {
+			continue
+		}
+		file := &c.graph.Files[sourceIndex]
+		f := VerifShakeFile{SourceIndex: int(sourceIndex), Path: file.InputFile.Source.PrettyPaths.Rel, IsLive: file.IsLive, IsEntryPoint: file.IsEntryPoint(), CSSSourceIndex: -1}
+		switch repr := file.InputFile.Repr.(type) {
+		case *graph.JSRepr:
+			f.IsJS = true
+			if repr.CSSSourceIndex.IsValid() {
+				f.CSSSourceIndex = int(repr.CSSSourceIndex.GetIndex())
+			}
+			for _, part := range repr.AST.Parts {
+				p := VerifShakePart{CanBeRemovedIfUnused: part.CanBeRemovedIfUnused, ForceTreeShaking: part.ForceTreeShaking, IsLive: part.IsLive}
+				for _, dep := range part.Dependencies {
+					p.Deps = append(p.Deps, [2]int{int(dep.SourceIndex), int(dep.PartIndex)})
+				}
+				for _, idx := range part.ImportRecordIndices {
+					record := &repr.AST.ImportRecords[idx]
+					if record.Kind != ast.ImportStmt {
+						continue
+					}
+					im := VerifShakeImport{Target: -1}
+					if record.SourceIndex.IsValid() {
+						im.Target = int(record.SourceIndex.GetIndex())
+						im.SideEffects = c.graph.Files[im.Target].InputFile.SideEffects.Kind == graph.HasSideEffects
+					} else {
+						im.ExternalNoSideEffects = record.Flags.Has(ast.IsExternalWithoutSideEffects)
+					}
+					p.StmtImports = append(p.StmtImports, im)
+				}
+				f.Parts = append(f.Parts, p)
+			}
+		case *graph.CSSRepr:
+			for _, record := range repr.AST.ImportRecords {
+				if record.SourceIndex.IsValid() {
+					f.CSSImports = append(f.CSSImports, int(record.SourceIndex.GetIndex()))
+				}
+			}
+		}
+		d.Files = append(d.Files, f)
+	}
+	obs(d)
+}
